@@ -6,7 +6,7 @@ from gencheck import *
 
 def run(tier):
     C = Check('C15', tier)
-    C.prove('Properties/C15.v')
+    C.prove('Properties/C15.v', bridges={'Model/Recover.v': []})
     C.cov['tie']['protocol_code_generator + generated code'] = ('correspondence-only: real generator + generated code executed in both entry modes, with validation '
                                                                'errors planted at any depth and writer/reader primitives failing at their k-th call')
     quick = tier == 'quick'
@@ -38,8 +38,10 @@ def run(tier):
                     jobs.append(dict(op='deser', cls=cls, data=data, chunked=ch))
                     jobs.append(dict(op='deser', cls=cls, data=data, chunked=ch, fail_at=rng.randrange(1, 8)))
                     jobs.append(dict(op='deser', cls=cls, data=data, chunked=ch, fail_at=rng.randrange(1, 8), fail_base=True))
-        entries.append(dict(name=t['name'], tree=t['tree'], jobs=jobs))
+        entries.append(dict(name=t['name'], tree=t['tree'], jobs=jobs, want_sources=True))
     run_entries(C, runner, entries)
+    recover_stream(C, entries, 'c15')
+    C.cov['tie']['generated classes (structure)'] = ('translation validation: tools/gen2instr.py recovers the instruction lists of every generated serialize / deserialize / __init__ from the SOURCE TEXT (fail-closed) and Model/Recover.v compares them with elab of the same tree (vm_compute): the theorems about the elaborated instruction lists apply to the code as emitted, for all objects and bytes')
     # ---- oracle on the implementation: mode out = mode in, whether the call returned or raised
     n = nraised = ninj = 0
     for e in entries:
